@@ -32,7 +32,7 @@ PROBES = ['unknown-object', 'unknown-method', 'invalid-args', 'interface-omitted
           'no-reply-dispatched', 'deferred-fired-out-of-order', 'deferred-fired-after-loss',
           'same-member-two-interfaces', 'dbusCaller-requested', 'inherited-interface-called', 'interface-bound-across-classes',
           'unencodable-return', 'invalid-error-name', 'peer-ping', 'several-calls-in-flight',
-          'nested-exception-class', 'deferred-already-fired']
+          'nested-exception-class', 'deferred-already-fired', 'export-over-exported-path']
 COMPONENTS = {
     'real': ['txdbus.objects.DBusObjectHandler.handleMethodCallMessage / DBusObject.executeMethod',
              'txdbus.client.DBusClientConnection', 'txdbus.message / marshal', 'twisted Deferred'],
@@ -169,6 +169,18 @@ def scenario(ctx):
             objs[p] = (o, cs)
             cl.exportObject(o)
     rig.call(build)
+    if ds.flag(0.2):
+        # a different object is exported over a path that is already exported: it takes over
+        sim.probe('export-over-exported-path')
+
+        def rebuild():
+            p = paths[ds.choose(len(paths))]
+            cs = objgen.class_spec(ds, 'R0', rich=True)
+            txi = objgen.build_tx_ifaces(cs)
+            o = objgen.build_class(cs, hook, txi)(p)
+            objs[p] = (o, cs)
+            cl.exportObject(o)
+        rig.call(rebuild)
     rig.calm()
     ctx.config.update(paths=paths)
 
